@@ -78,6 +78,8 @@ run_directed = directed.run
 
 
 def cases(tier, rng):
+    for c in directed.descriptor_members_cases():
+        yield "directed-descriptor-members", c
     for c in directed.wrapped_async_public_method_cases():
         yield "directed-wrapped-async-public-method", c
     for c in directed.odd_member_names_cases():
